@@ -551,13 +551,16 @@ class DavSys:
                     if d is not None:
                         views[nm]["multiget_data"] = sha(nl(d.encode("utf-8")))
         if kind == "calendar":
-            r = self.req("REPORT", base, dict(dav.XML_CT, Depth="1"), dav.calquery_body(dav.ALL_VCALENDAR, [dav.P_GETETAG]))
+            r = self.req("REPORT", base, dict(dav.XML_CT, Depth="1"), dav.calquery_body(dav.ALL_VCALENDAR, [dav.P_GETETAG, dav.P_CALDATA]))
             a["query_status"] = r.status
             if r.status == 207:
                 ms = dav.parse_multistatus(r.body)
                 for x in ms.responses:
                     nm = urllib.parse.unquote(posixpath.basename(dav.resolve_href(base, x.href or "")))
                     views.setdefault(nm, {})["query"] = x.prop_text(dav.P_GETETAG)
+                    d = x.prop_text(dav.P_CALDATA)
+                    if d is not None:
+                        views[nm]["query_data"] = sha(nl(d.encode("utf-8")))
         elif kind == "addressbook":
             r = self.req("REPORT", base, dict(dav.XML_CT, Depth="1"), dav.abquery_body("<C:filter/>", [dav.P_GETETAG]))
             a["query_status"] = r.status
@@ -733,9 +736,9 @@ class DavSys:
                     if a["head"][nm][0] != 200:
                         self.violation("C02", "head-status", "HEAD answers %s where GET answers 200" % a["head"][nm][0], {"op": op, "name": nm})
                 for view, v in views.items():
-                    if view == "multiget_data":
+                    if view in ("multiget_data", "query_data"):
                         if v != sha(nl(body)):
-                            self.violation("C02", "multiget-data-differs", "multiget data differs from GET body", {"op": op, "name": self.canon_name(nm)})
+                            self.violation("C02", "%s-differs" % view.replace("_", "-"), "the body a report returns under this ETag differs from the GET body", {"op": op, "name": self.canon_name(nm)})
                         continue
                     if v != et:
                         self.violation("C02", "views-disagree:%s" % view, "ETag seen via %s is %s, via GET %s" % (view, v, et), {"op": op, "name": self.canon_name(nm), "coll": coll})
